@@ -99,6 +99,13 @@ def force_str(I, ctx, v):
     return FmtStr(out)
 
 
+def loop_head(n):
+    """normalised header text of a loop statement"""
+    if isinstance(n, ast.For):
+        return f"for {ast.unparse(n.target)} in {ast.unparse(n.iter)}"
+    return "while " + ast.unparse(n.test)
+
+
 class Interp:
     def __init__(self, world=None):
         self.world = world or World()
@@ -668,14 +675,38 @@ class Interp:
         specs = self.loop_specs.get(self.full_qualname(f))
         if not specs:
             return None, None
-        ordmap = getattr(f, "_loop_ord", None)
-        if ordmap is None:
+        binding = getattr(f, "_loop_binding", None)
+        if binding is None or binding[0] is not specs:
+            # Invariants are bound to loops by the loop's header text where the contract gives one (robust against
+            # reordered loops and against code added before a loop), by source ordinal otherwise. A contract whose
+            # invariants cannot all be bound says so (the loop changed shape; the contract has to be looked at): a checker
+            # error, never a verdict on the code.
             loops = [n for n in ast.walk(f.node) if isinstance(n, (ast.For, ast.While))]
             loops.sort(key=lambda n: (n.lineno, n.col_offset))
-            ordmap = {id(n): i for i, n in enumerate(loops)}
-            f._loop_ord = ordmap
-        o = ordmap.get(id(st))
-        return specs.get(o), o
+            heads = getattr(self, "loop_heads", {}).get(self.full_qualname(f)) or {}
+            bound, unbound = {}, []
+            for o, spec in sorted(specs.items()):
+                head = heads.get(o)
+                if head is None:
+                    if o < len(loops) and id(loops[o]) not in bound:
+                        bound[id(loops[o])] = (spec, o)
+                    else:
+                        unbound.append((o, "loop number %d" % o))
+                    continue
+                cands = [n for n in loops if id(n) not in bound and loop_head(n) == head]
+                if cands:
+                    bound[id(cands[0])] = (spec, o)
+                else:
+                    unbound.append((o, head))
+            binding = (specs, bound, unbound)
+            f._loop_binding = binding
+        _, bound, unbound = binding
+        if id(st) in bound:
+            return bound[id(st)]
+        if unbound:
+            raise Unsupported(f"the loops of {self.full_qualname(f)} changed shape: the contract's invariant for "
+                              f"{'; '.join(repr(h) for _, h in unbound)} finds no loop with that header (loop reached: {loop_head(st)!r})")
+        return None, None
 
     MUTATORS = {"append", "extend", "insert", "pop", "remove", "clear", "update", "add", "discard", "setdefault",
                 "sort", "reverse", "fill", "popitem", "__setitem__"}
